@@ -187,7 +187,7 @@ def gen_spec(seed: int, config: str | None = None) -> dict:
                         ops.append({"op": "recv", "abandon": rng.choice([0, 1, 2])})
                     elif r < 0.67:
                         # the consumer fails while handling a packet: the exception is thrown into the generator
-                        ops.append({"op": "recv", "throw_at": rng.choice([0, 1, 2])})
+                        ops.append({"op": "recv", "throw_at": rng.choice([0, 1, 2]), "throw_exc": rng.choice(["ConsumerFailed", "ValueError", "TypeError", "KeyError", "UnicodeError"])})
                     elif r < 0.70:
                         # the queue object travels (pickled to a worker, copied): the same reader carries on with the copy
                         ops.append({"op": "fork", "how": rng.choice(["pickle", "copy"])})
@@ -626,12 +626,18 @@ class NodeRunner:
                         self.do_send({"op": "send", "to": reply["to"], "data": reply["data"], "serial": reply["serial"]})
                     if op.get("throw_at") is not None and got > op["throw_at"]:
                         self.sim.probe("exception_thrown_into_generator")
+                        exc_cls = {"ConsumerFailed": ConsumerFailed, "ValueError": ValueError, "TypeError": TypeError, "KeyError": KeyError,
+                                   "UnicodeError": UnicodeError}[op.get("throw_exc", "ConsumerFailed")]
                         try:
-                            gen.throw(ConsumerFailed("consumer failed while handling a packet"))
-                        except ConsumerFailed:
+                            extra = gen.throw(exc_cls("consumer failed while handling a packet"))
+                        except exc_cls:
                             pass
                         except StopIteration:
                             pass
+                        else:
+                            # the generator swallowed the consumer's exception and handed out another packet instead
+                            self.record(extra)
+                            self.hist.recv_errors.append((name, "ThrownExceptionSwallowed", f"gen.throw({exc_cls.__name__}) returned a packet instead of raising"))
                         break
                     if abandon is not None and got > abandon:
                         self.sim.probe("generator_abandoned")
